@@ -15,7 +15,18 @@
 //!     session flags, number of paths processed); the two disk images must agree as well.
 //! Enumerated probes of inputs known to be dirty on the pinned tree: F18 (lexer-fatal error in a root:
 //! exit 101), D1 (a root whose local configuration fails to load aborts the loop), D3 (syntax error in
-//! a root on the `ignore` list: exit 1 without any diagnostic), and the informational OPTOUT probe.
+//! a root on the `ignore` list: exit 1 without any diagnostic), D4 and D5 (repaired: a stashed parser error after
+//! an ignored file with a recoverable one; a nested-path candidate that does not parse), and the informational
+//! OPTOUT and W1 probes.
+//!
+//! Added with the error-bookkeeping model (RF/Model/ParseErrors.lean): fault CLASSES (what the rustc parser
+//! does on the text: recoverable / stashed / warning / unrecoverable / unclosed / lexer-fatal, each measured on
+//! the pinned tree), `ignore` lists in four spellings x class of the ignored file x class of a file that is not
+//! ignored x which is parsed first x position; modules declared with nested paths
+//! (`#[cfg_attr(pred, path = "..")] mod m;`) x where the fault sits x default file present or not x last module
+//! or not; and two in-process correspondences of `perr.run` against the real `DiagCtxt` +
+//! `SilentOnIgnoredFilesEmitter` + `can_reset` (synthetic diagnostics, exhaustive up to length 3) and against
+//! `Parser::parse_crate` / `parse_file_as_module` on real files in one session.
 use std::collections::BTreeMap;
 use std::path::{Path, PathBuf};
 use std::process::Command;
@@ -34,6 +45,10 @@ pub enum Decl {
     Plain,
     PathAttr,
     CfgIf,
+    /// `#[cfg_attr(pred, path = "alt.rs")] mod m;`: this node is the default file, `alts` are the candidates
+    CfgAttr,
+    /// a candidate file of a `CfgAttr` declaration (listed in the declaring node's `alts`, not in `children`)
+    CfgAlt,
 }
 
 #[derive(Clone, Copy, PartialEq, Eq, Debug)]
@@ -42,6 +57,14 @@ pub enum FileFault {
     LexFatal(usize),
     Unclosed(usize),
     Syntax(usize),
+    /// a syntax error the rustc parser recovers from: it reports it and returns the module
+    Recoverable(usize),
+    /// a syntax error that makes `parse_mod` return `Err`
+    Unrecoverable(usize),
+    /// valid Rust on which the rustc parser prints a warning
+    Warning(usize),
+    /// a syntax error the rustc parser stashes
+    Stashed(usize),
 }
 
 pub const LEX: &[&str] = &["fn  lexbad(){ let c = 'a; }", "fn  lexbad(){ let x = 0x; }", "fn  lexbad(){ let x = 1 \\ 2; }", "fn  lexbad(){ let x = ''; }"];
@@ -50,6 +73,62 @@ pub const LEXFATAL: &[&str] = &["fn  lf(){ let s = \"abc; }", "fn  lf(){ let s =
 pub const LEXFATAL_NAMES: &[&str] = &["unterminated-string", "unterminated-byte-char", "unterminated-block-comment", "unterminated-raw-string", "unterminated-byte-string", "not-utf8"];
 pub const UNCLOSED: &[&str] = &["fn  unclosed(){ let x = 1;", "struct  U { a: u32,", "mod  inl { fn  g(){}"];
 pub const SYNTAX: &[&str] = &["fn  fn  synbad(){}", "struct  S { a: }", "fn  synbad(){ let = ; }"];
+/// each of these was measured on the pinned tree: alone in an ignored module the run succeeds (the parser
+/// returns `Ok` and the error is reset), in a module that is not ignored it fails
+pub const RECOVERABLE: &[&str] = &[
+    "fn  rec(){ let x = ; }",
+    "struct  RecS { a: }",
+    "fn  rec(){ let x = 1 }",
+    "fn  rec(){ let a = 1; let b = a +; }",
+    "struct  RecS { a: u32 b: u32 }",
+    "fn  rec(a: u32 b: u32) {}",
+    "enum  RecE { A B }",
+    "fn  rec(){ foo(1 2); }",
+    "fn  rec(){ x.; }",
+    "fn  rec(){ let x: = 1; }",
+    "fn  rec(){ a b }",
+    "fn  rec(){ let mut = 1; }",
+    "fn  rec(){ match x { 1 => } }",
+    "fn  rec(){ x = = 1; }",
+    "fn  rec(){ let x = 1 let y = 2; }",
+    "fn  rec(){ x++; }",
+    "fn  rec(){ a === b; }",
+    "fn  rec(){ let x = 1, y = 2; }",
+    "struct  RecS { pub pub a: u8 }",
+    "fn  rec(u32) {}",
+    "fn  rec(){ let x = 0x; }",
+    "fn  rec(){ let c = ''; }",
+    "fn  rec(){ match 1 { 1 + 1 => {} } }",
+    "fn  rec(){ let c = 'ab'; }",
+];
+/// measured: alone in an ignored module the run still fails (`parse_mod` returns `Err`)
+pub const UNRECOVERABLE: &[&str] = &[
+    "fn  fn  unrec(){}",
+    "pub fn  unrec() -> { }",
+    "pub pub fn  unrec() {}",
+    "impl { }",
+    "const UNREC: u32 = ;",
+    "use a::;",
+    "type Unrec = ;",
+];
+/// errors the rustc parser *stashes* instead of emitting (it returns `Ok`): they count for `has_errors()` but
+/// reach the emitter only when the stash is emitted (finding D4: before the repair they never did)
+pub const STASHED: &[&str] = &["static  STASHED = 1;", "const  STASHED = 1;", "fn  stashed(){ let _ = x.f::<u8>; }", "static mut  STASHED = 1;"];
+/// valid Rust with a parser warning (`multiple lines skipped by escaped newline`, `suffixes on a tuple index are invalid`)
+pub const WARNING: &[&str] = &["fn  warn(){ let s = \"a\\\n\n\n   b\"; }", "fn  warn(){ let t = (1,2); t.1u32; }"];
+
+pub fn fault_class(f: FileFault) -> &'static str {
+    match f {
+        FileFault::Lex(_) => "r",
+        FileFault::LexFatal(_) => "f",
+        FileFault::Unclosed(_) => "x",
+        FileFault::Syntax(k) => if k % SYNTAX.len() == 0 { "u" } else { "r" },
+        FileFault::Recoverable(_) => "r",
+        FileFault::Unrecoverable(_) => "u",
+        FileFault::Warning(_) => "w",
+        FileFault::Stashed(_) => "s",
+    }
+}
 
 #[derive(Clone, Copy, PartialEq, Eq, Debug)]
 pub enum ModFault {
@@ -78,6 +157,10 @@ pub struct Node {
     pub fault_at: usize,
     pub bogus: Option<Bogus>,
     pub long_call: bool,
+    /// `Decl::CfgAttr`: the nested-path candidates, in attribute order
+    pub alts: Vec<usize>,
+    /// `Decl::CfgAttr`: there is no default file (`m.rs` / `m/mod.rs` do not exist): the node has no file
+    pub absent: bool,
     // filled by `layout`
     pub rel: PathBuf,
     pub file_dir: PathBuf,
@@ -86,6 +169,9 @@ pub struct Node {
     pub bytes: Vec<u8>,
     /// the complete text formatting this file alone gives (None: it does not parse)
     pub expected: Option<String>,
+    /// the job that formats this (healthy) file alone did not come back clean (timeout, worker trouble): what
+    /// the file should become is not known, a change of it is inconclusive
+    pub expected_unknown: bool,
     pub id: usize,
 }
 
@@ -136,12 +222,15 @@ fn new_node(name: String, decl: Decl, rng: &mut Rng) -> Node {
         fault_at: rng.below(4),
         bogus: None,
         long_call: rng.chance(1, 2),
+        alts: vec![],
+        absent: false,
         rel: PathBuf::new(),
         file_dir: PathBuf::new(),
         child_dir: PathBuf::new(),
         attr_path: String::new(),
         bytes: vec![],
         expected: None,
+        expected_unknown: false,
         id: 0,
     }
 }
@@ -238,7 +327,10 @@ impl Crate {
     pub fn visit_order(&self) -> Vec<usize> {
         fn go(c: &Crate, i: usize, out: &mut Vec<usize>) {
             for ch in &c.nodes[i].children {
-                out.push(*ch);
+                out.extend(c.nodes[*ch].alts.iter().copied());
+                if !c.nodes[*ch].absent {
+                    out.push(*ch);
+                }
                 go(c, *ch, out);
             }
         }
@@ -286,6 +378,7 @@ impl Crate {
             for ch in c.nodes[i].children.clone() {
                 let name = c.nodes[ch].name.clone();
                 match c.nodes[ch].decl {
+                    Decl::CfgAlt => {}
                     Decl::PathAttr => {
                         let attr = format!("{}_p/{}_impl.rs", name, name);
                         let rel = file_dir.join(&attr);
@@ -304,6 +397,15 @@ impl Crate {
                         }
                         c.nodes[ch].child_dir = child_dir.join(&name);
                     }
+                }
+                // nested-path candidates: `self.directory.path.join(path)`, the directory of the declaring file
+                for (k, alt) in c.nodes[ch].alts.clone().into_iter().enumerate() {
+                    let attr = format!("{}_alt{}.rs", name, k);
+                    let rel = file_dir.join(&attr);
+                    c.nodes[alt].attr_path = attr;
+                    c.nodes[alt].file_dir = file_dir.clone();
+                    c.nodes[alt].child_dir = file_dir.clone();
+                    c.nodes[alt].rel = rel;
                 }
                 go(c, ch);
             }
@@ -341,6 +443,16 @@ impl Crate {
             Decl::Plain => format!("{}mod   {};", if n.id % 2 == 0 { "pub  " } else { "" }, n.name),
             Decl::PathAttr => format!("#[path = \"{}\"]\nmod   {};", n.attr_path, n.name),
             Decl::CfgIf => format!("cfg_if::cfg_if! {{ if #[cfg(unix)] {{ mod  {}; }} else {{ fn  {}_alt(){{}} }} }}", n.name, n.name),
+            Decl::CfgAttr => {
+                let preds = ["unix", "windows", "feature = \"alt\"", "any()", "not(unix)"];
+                let mut t = String::new();
+                for (k, a) in n.alts.iter().enumerate() {
+                    t.push_str(&format!("#[cfg_attr({}, path = \"{}\")]\n", preds[(n.id + k) % preds.len()], self.nodes[*a].attr_path));
+                }
+                t.push_str(&format!("mod   {};", n.name));
+                t
+            }
+            Decl::CfgAlt => String::new(),
         }
     }
 
@@ -378,6 +490,10 @@ impl Crate {
                 }
                 FileFault::Unclosed(k) => UNCLOSED[k % UNCLOSED.len()],
                 FileFault::Syntax(k) => SYNTAX[k % SYNTAX.len()],
+                FileFault::Recoverable(k) => RECOVERABLE[k % RECOVERABLE.len()],
+                FileFault::Unrecoverable(k) => UNRECOVERABLE[k % UNRECOVERABLE.len()],
+                FileFault::Warning(k) => WARNING[k % WARNING.len()],
+                FileFault::Stashed(k) => STASHED[k % STASHED.len()],
             };
             let unterminated = matches!(f, FileFault::LexFatal(_)) || matches!(f, FileFault::Unclosed(_));
             if unterminated || !tail.is_empty() {
@@ -400,13 +516,12 @@ impl Crate {
         self.cfg.clone()
     }
 
+    /// what the rustc parser does on the file, in the classes of RF/Driver/Session.lean (measured per
+    /// fault text on the pinned tree: every `LEX` text and two of the three `SYNTAX` texts are recovered from)
     fn parse_word(&self, i: usize) -> &'static str {
         match self.nodes[i].fault {
             None => "ok",
-            Some(FileFault::Lex(_)) => "lex",
-            Some(FileFault::LexFatal(_)) => "panic",
-            Some(FileFault::Unclosed(_)) => "unclosed",
-            Some(FileFault::Syntax(_)) => "syntax",
+            Some(f) => fault_class(f),
         }
     }
 
@@ -417,7 +532,22 @@ impl Crate {
         order.extend(self.visit_order());
         for i in order {
             let n = &self.nodes[i];
-            let mut ch: Vec<String> = n.children.iter().map(|c| format!("f{}", self.nodes[*c].id)).collect();
+            if n.absent {
+                continue;
+            }
+            let mut ch: Vec<String> = n
+                .children
+                .iter()
+                .map(|c| {
+                    let cn = &self.nodes[*c];
+                    if cn.decl == Decl::CfgAttr {
+                        let alts: Vec<String> = cn.alts.iter().map(|a| self.nodes[*a].id.to_string()).collect();
+                        format!("c{}/{}", alts.join("+"), if cn.absent { "n".to_string() } else { format!("f{}", cn.id) })
+                    } else {
+                        format!("f{}", cn.id)
+                    }
+                })
+                .collect();
             if let Some(b) = &n.bogus {
                 let w = match b.kind {
                     ModFault::Both => "m",
@@ -447,6 +577,9 @@ impl Crate {
         let d = base.join(&self.dir);
         std::fs::create_dir_all(&d).unwrap();
         for n in &self.nodes {
+            if n.absent {
+                continue;
+            }
             let p = d.join(&n.rel);
             std::fs::create_dir_all(p.parent().unwrap()).unwrap();
             std::fs::write(&p, &n.bytes).unwrap();
@@ -713,10 +846,14 @@ pub fn oracles(case: &Case, ev: &Eval) -> Vec<(String, String)> {
     let mut f = vec![];
     // expected complete texts
     let mut expected: BTreeMap<String, Option<&String>> = BTreeMap::new();
+    let mut unknown: std::collections::BTreeSet<String> = Default::default();
     for r in &case.roots {
         if let Root::Crate(c) = r {
             for n in &c.nodes {
                 expected.insert(format!("{}/{}", c.dir, n.rel.display()), n.expected.as_ref());
+                if n.expected_unknown {
+                    unknown.insert(format!("{}/{}", c.dir, n.rel.display()));
+                }
             }
         }
     }
@@ -769,6 +906,7 @@ pub fn oracles(case: &Case, ev: &Eval) -> Vec<(String, String)> {
                 } else {
                     match expected.get(k) {
                         Some(Some(e)) if e.as_bytes() == &v[..] => {}
+                        Some(None) if unknown.contains(k) => {}
                         _ => f.push(("c05:file-replaced-by-something-else-than-its-formatted-text".to_string(), format!("{} ({} -> {} bytes)", k, b.len(), v.len()))),
                     }
                 }
@@ -982,6 +1120,367 @@ fn build_healthy_case(rng: &mut Rng, n: usize, variant: &str, mode: Mode) -> Cas
     Case { n, kind: format!("healthy:{}", variant), pos: "-".into(), mode, roots, faulty: None, abs_paths: rng.chance(1, 2), rng_state }
 }
 
+// ------------------------------------------------------------------------------------------ ignore x fault
+
+#[derive(Clone, Copy, PartialEq, Eq, Debug)]
+pub enum Spelling {
+    /// the file's path relative to the directory of rustfmt.toml
+    RelPath,
+    /// the bare file name (matches at any depth)
+    BareName,
+    /// the directory the file lies in (everything below it is ignored)
+    Dir,
+    /// a glob on the file name
+    Glob,
+}
+
+pub const SPELLINGS: [Spelling; 4] = [Spelling::RelPath, Spelling::BareName, Spelling::Dir, Spelling::Glob];
+
+impl Spelling {
+    fn name(self) -> &'static str {
+        match self {
+            Spelling::RelPath => "path",
+            Spelling::BareName => "name",
+            Spelling::Dir => "dir",
+            Spelling::Glob => "glob",
+        }
+    }
+}
+
+/// The `ignore` entry that covers node `target` in the given spelling, and the nodes it matches.  `keep_out`
+/// must not be matched: the spelling falls back to the exact relative path if it would be.
+fn ignore_entry(c: &Crate, target: usize, sp: Spelling, keep_out: Option<usize>) -> (String, Vec<usize>) {
+    let rel = c.nodes[target].rel.clone();
+    let fname = rel.file_name().unwrap().to_string_lossy().to_string();
+    let exact = (rel.display().to_string(), vec![target]);
+    let cand = match sp {
+        Spelling::RelPath => exact.clone(),
+        Spelling::BareName if fname != "mod.rs" => (fname.clone(), vec![target]),
+        Spelling::Glob if fname != "mod.rs" => (format!("{}.*", fname.trim_end_matches(".rs")), vec![target]),
+        Spelling::Dir => match rel.parent() {
+            Some(d) if !d.as_os_str().is_empty() => {
+                let under: Vec<usize> = (0..c.nodes.len()).filter(|i| c.nodes[*i].rel.starts_with(d)).collect();
+                (format!("{}/", d.display()), under)
+            }
+            _ => exact.clone(),
+        },
+        _ => exact.clone(),
+    };
+    match keep_out {
+        Some(k) if cand.1.contains(&k) => exact,
+        _ => cand,
+    }
+}
+
+fn class_fault(class: &str, k: usize) -> Option<FileFault> {
+    match class {
+        "r" => Some(FileFault::Recoverable(k)),
+        "u" => Some(FileFault::Unrecoverable(k)),
+        "x" => Some(FileFault::Unclosed(k)),
+        "f" => Some(FileFault::LexFatal(k)),
+        "w" => Some(FileFault::Warning(k)),
+        "s" => Some(FileFault::Stashed(k)),
+        _ => None,
+    }
+}
+
+/// One crate with an `ignore` list: node A is on it and carries a fault of class `ca` (or none), node B is not
+/// on it and carries a fault of class `cb` (or none); `a_first`: A is parsed before B.  `shape` picks the two
+/// positions in the order of parsing (root first, then depth first): 0 = (root, a later module),
+/// 1 = (1st, 2nd module), 2 = two random modules, 3 = the `#[path]` target and another, 4 = a module and one
+/// nested at least two levels down.
+fn build_ignore_case(rng: &mut Rng, n: usize, ca: &str, cb: &str, a_first: bool, sp: Spelling, mode: Mode, shape: usize) -> Case {
+    let rng_state = rng.0;
+    let depth = rng.range(2, 3);
+    let mut c = gen_crate(rng, "f", "fm", depth, true);
+    c.layout();
+    let mut seq = vec![0usize];
+    seq.extend(c.visit_order());
+    let pos_of = |i: usize| seq.iter().position(|x| *x == i).unwrap();
+    let later = |rng: &mut Rng, from: usize| from + 1 + rng.below(seq.len() - from - 1);
+    let (mut p1, mut p2) = match shape {
+        0 => (0, later(rng, 0)),
+        1 => (1, 2),
+        2 => {
+            let a = 1 + rng.below(seq.len() - 2);
+            (a, later(rng, a))
+        }
+        3 => {
+            let pt = seq.iter().position(|i| c.nodes[*i].decl == Decl::PathAttr).unwrap_or(1);
+            let mut other = 1 + rng.below(seq.len() - 1);
+            if other == pt {
+                other = if pt + 1 < seq.len() { pt + 1 } else { pt - 1 };
+            }
+            (pt.min(other), pt.max(other))
+        }
+        _ => {
+            let deep: Vec<usize> = (1..seq.len()).filter(|p| c.level(seq[*p]) >= 2).collect();
+            let d = if deep.is_empty() { seq.len() - 1 } else { *rng.pick(&deep) };
+            let mut a = 1 + rng.below(seq.len() - 1);
+            if a == d {
+                a = if d > 1 { d - 1 } else { d + 1 };
+            }
+            (a.min(d), a.max(d))
+        }
+    };
+    if p1 == p2 || p2 >= seq.len() {
+        p1 = 1;
+        p2 = 2;
+    }
+    let (mut a, mut b) = if a_first { (seq[p1], seq[p2]) } else { (seq[p2], seq[p1]) };
+    // an unparsable ROOT on its own ignore list is the known finding D3 (exit 1 without a diagnostic):
+    // enumerated there, kept out of the generated family
+    if a == 0 && (ca == "u" || ca == "x") {
+        std::mem::swap(&mut a, &mut b);
+    }
+    let _ = pos_of;
+    let k = rng.below(64);
+    c.nodes[a].fault = class_fault(ca, k);
+    c.nodes[b].fault = class_fault(cb, k / 3 + 1);
+    let (entry, matched) = ignore_entry(&c, a, sp, Some(b));
+    c.ignored = matched;
+    c.toml = Some(format!("{}ignore = [\"{}\"]\n", c.toml.clone().unwrap_or_default(), entry));
+    c.layout();
+    let fails = (cb != "ok" && cb != "w") || ca == "u" || ca == "x" || ca == "f";
+    // (`ca` = "r" / "s" / "w" / "ok": an ignored file the parser recovers from does not make the run fail)
+    let mut h = healthy(rng, "h", "hm");
+    h.layout();
+    let (roots, fi) = if rng.chance(1, 2) { (vec![Root::Crate(h), Root::Crate(c)], 1) } else { (vec![Root::Crate(c), Root::Crate(h)], 0) };
+    Case {
+        n,
+        kind: format!("ignore:{}:A={},B={},{}", sp.name(), ca, cb, if a_first { "A-first" } else { "B-first" }),
+        pos: format!("shape{}", shape),
+        mode,
+        roots,
+        faulty: if fails { Some(fi) } else { None },
+        abs_paths: rng.chance(1, 2),
+        rng_state,
+    }
+}
+
+// ------------------------------------------------------------------------------------------ cfg_attr(path) modules
+
+/// A crate in which one module is declared with nested paths: `#[cfg_attr(pred, path = "m_alt0.rs")] mod m;`
+/// with `n_alts` candidates that exist, a default file `m.rs` / `m/mod.rs` (`with_default`) or none, declared in
+/// the root as its last module (`last`: the files of this declaration are the last ones the resolver parses) or
+/// at a random place of a random file.  `target`: which file carries the fault of class `class` (0.. = candidate,
+/// usize::MAX = the default file; "ok" = none).
+fn build_cfgattr_case(rng: &mut Rng, n: usize, class: &str, n_alts: usize, with_default: bool, target: usize, last: bool, mode: Mode) -> Case {
+    let rng_state = rng.0;
+    let depth = rng.range(1, 3);
+    let mut c = gen_crate(rng, "f", "fm", depth, true);
+    let host = if last { 0 } else { *rng.pick(&(0..c.nodes.len()).filter(|i| c.nodes[*i].decl != Decl::PathAttr).collect::<Vec<_>>()) };
+    let x = c.nodes.len();
+    let mut xn = new_node(format!("fm{}", x), Decl::CfgAttr, rng);
+    xn.absent = !with_default;
+    c.nodes.push(xn);
+    for k in 0..n_alts {
+        let a = c.nodes.len();
+        c.nodes.push(new_node(format!("fm{}a{}", x, k), Decl::CfgAlt, rng));
+        c.nodes[x].alts.push(a);
+    }
+    if last {
+        c.nodes[host].children.push(x);
+    } else {
+        let at = rng.below(c.nodes[host].children.len() + 1);
+        c.nodes[host].children.insert(at, x);
+    }
+    let k = rng.below(64);
+    let t = if target == usize::MAX { x } else { c.nodes[x].alts[target % n_alts.max(1)] };
+    if !(c.nodes[t].absent) {
+        c.nodes[t].fault = class_fault(class, k);
+    }
+    c.layout();
+    let fails = (class != "ok" && class != "w" && !c.nodes[t].absent) || (!with_default && n_alts == 0);
+    let mut h = healthy(rng, "h", "hm");
+    h.layout();
+    let (roots, fi) = if rng.chance(1, 2) { (vec![Root::Crate(h), Root::Crate(c)], 1) } else { (vec![Root::Crate(c), Root::Crate(h)], 0) };
+    Case {
+        n,
+        kind: format!("cfg_attr:{}:alts={},default={},fault-in-{}", class, n_alts, with_default, if target == usize::MAX { "default".to_string() } else { format!("candidate{}", target) }),
+        pos: if last { "last".into() } else { "anywhere".into() },
+        mode,
+        roots,
+        faulty: if fails { Some(fi) } else { None },
+        abs_paths: rng.chance(1, 2),
+        rng_state,
+    }
+}
+
+// ------------------------------------------------------------------------------------------ the bookkeeping, in process
+
+use rustfmt_nightly::verif_hooks::parse_errors as pe;
+
+fn enc_obs(obs: &[pe::Obs], mode: char) -> String {
+    if obs.is_empty() {
+        return "_".into();
+    }
+    obs.iter()
+        .map(|o| {
+            let shown = match (mode, o.shown) {
+                ('n', Some(k)) => k.to_string(),
+                ('b', Some(k)) => ((k > 0) as u8).to_string(),
+                _ => "-".to_string(),
+            };
+            format!("{}.{}{}.{}", if o.result.is_empty() { "-" } else { o.result }, o.can_reset as u8, o.has_errors as u8, shown)
+        })
+        .collect::<Vec<_>>()
+        .join(",")
+}
+
+/// `perr.run` against the real `DiagCtxt` + `SilentOnIgnoredFilesEmitter` + shared flag, fed with synthetic
+/// diagnostics (level x where the primary span lies) and `reset_errors()` calls.
+fn perr_synthetic(o: &mut Outcome, rng: &mut Rng, base: &Path, thorough: bool) {
+    let toml = "ignore = [\"ign.rs\", \"sub/\", \"g_*.rs\"]\nshow_parse_errors = false\n";
+    let files: Vec<PathBuf> = ["ign.rs", "sub/deep/x.rs", "g_1.rs", "plain.rs", "other/ign2.rs", "subx.rs"].iter().map(|f| base.join(f)).collect();
+    let ignored_idx = [0usize, 1, 2];
+    let plain_idx = [3usize, 4, 5];
+    let alphabet: Vec<String> = {
+        let mut v = vec![];
+        for l in ['f', 'e', 'w'] {
+            for p in ['n', 's', 'i', 'l'] {
+                v.push(format!("e{}{}", l, p));
+            }
+        }
+        v.push("r".to_string());
+        v
+    };
+    let mut scripts: Vec<Vec<String>> = vec![vec![]];
+    for a in &alphabet {
+        scripts.push(vec![a.clone()]);
+        for b in &alphabet {
+            scripts.push(vec![a.clone(), b.clone()]);
+            for c in &alphabet {
+                scripts.push(vec![a.clone(), b.clone(), c.clone()]);
+            }
+        }
+    }
+    let extra = if thorough { 6000 } else { 600 };
+    for _ in 0..extra {
+        let len = rng.range(4, 12);
+        scripts.push((0..len).map(|_| rng.pick(&alphabet).clone()).collect());
+    }
+    for (si, sc) in scripts.iter().enumerate() {
+        let mut ops = vec![];
+        for it in sc {
+            let ch: Vec<char> = it.chars().collect();
+            if ch[0] == 'r' {
+                ops.push(pe::Op::Reset);
+                continue;
+            }
+            let level = match ch[1] {
+                'f' => 0,
+                'e' => if rng.chance(1, 8) { 5 } else { 1 },
+                _ => [2u8, 3, 4][rng.below(3)],
+            };
+            let loc = match ch[2] {
+                'n' => pe::Loc::NoSpan,
+                's' => pe::Loc::Stdin,
+                'i' => pe::Loc::File(*rng.pick(&ignored_idx)),
+                _ => pe::Loc::File(*rng.pick(&plain_idx)),
+            };
+            ops.push(pe::Op::Emit(level, loc));
+        }
+        // the counting session shows how many diagnostics reach the wrapped emitter; every fifth script also
+        // goes through a session built by `ParseSess::new` itself (nothing to count there)
+        for counting in [true, false] {
+            if !counting && si % 5 != 0 {
+                continue;
+            }
+            let mode = if counting { 'n' } else { 'x' };
+            match pe::run(toml, &base.join("rustfmt.toml"), counting, &files, &ops) {
+                Ok(obs) => {
+                    let script = if sc.is_empty() { "_".to_string() } else { sc.join(",") };
+                    let nontrivial = obs.iter().any(|x| x.can_reset) || obs.iter().any(|x| x.has_errors);
+                    o.push("corr", "perr.run", format!("perr.run {} {}", mode, script), enc_obs(&obs, mode), format!("synthetic diagnostics, {} session", if counting { "counting" } else { "ParseSess::new" }), nontrivial);
+                }
+                Err(e) => o.direct_failures.push(json!({"sig": "c05:perr-hook-failed", "what": e})),
+            }
+        }
+        o.count(&format!("perr-synthetic:len:{}", if sc.len() <= 3 { sc.len().to_string() } else { ">3".into() }));
+    }
+}
+
+const PE_CLASSES: [&str; 8] = ["ok", "r", "s", "w", "u", "x", "f", "z"];
+
+fn pe_text(class: &str, k: usize) -> Option<String> {
+    let body = match class {
+        "ok" => "fn  fine( a :u32 )->u32{ a+1 }".to_string(),
+        "r" => RECOVERABLE[k % RECOVERABLE.len()].to_string(),
+        "w" => WARNING[k % WARNING.len()].to_string(),
+        "s" => STASHED[k % STASHED.len()].to_string(),
+        "u" => UNRECOVERABLE[k % UNRECOVERABLE.len()].to_string(),
+        "x" => UNCLOSED[k % UNCLOSED.len()].to_string(),
+        "f" => LEXFATAL[k % (LEXFATAL.len() - 1)].to_string(),
+        _ => return None,
+    };
+    Some(format!("fn  before(){{}}\n{}\n", body))
+}
+
+/// `perr.run` against `Parser::parse_crate` / `Parser::parse_file_as_module` on real files (real rustc parser,
+/// real diagnostics) in one session: the decisions of parser.rs in every state a session can be brought into,
+/// also the ones `format_project` never continues from (after a failure).
+fn perr_files(o: &mut Outcome, rng: &mut Rng, base: &Path, thorough: bool) {
+    let dir = base.join("pe");
+    std::fs::create_dir_all(&dir).unwrap();
+    let variants = 4usize;
+    for class in PE_CLASSES {
+        for ign in [false, true] {
+            for v in 0..variants {
+                if let Some(t) = pe_text(class, v * 5 + ign as usize) {
+                    std::fs::write(dir.join(format!("{}_{}{}.rs", if ign { "i" } else { "n" }, class, v)), t).unwrap();
+                }
+            }
+        }
+    }
+    let toml = "ignore = [\"i_*.rs\"]\n";
+    let kinds: Vec<(&str, bool)> = PE_CLASSES.iter().flat_map(|c| [(*c, false), (*c, true)]).collect();
+    let mut scripts: Vec<Vec<(char, &str, bool)>> = vec![];
+    for first in ['c', 'm'] {
+        for a in &kinds {
+            scripts.push(vec![(first, a.0, a.1)]);
+            for b in &kinds {
+                scripts.push(vec![(first, a.0, a.1), ('m', b.0, b.1)]);
+            }
+        }
+    }
+    let extra = if thorough { 5000 } else { 500 };
+    for _ in 0..extra {
+        let len = rng.range(3, 7);
+        let mut sc = vec![];
+        for i in 0..len {
+            let k = *rng.pick(&kinds);
+            // mostly acceptable files first, so that long scripts reach interesting states
+            let k = if i + 1 < len && rng.chance(1, 2) { *rng.pick(&[("ok", false), ("r", true), ("w", true), ("w", false), ("ok", true)]) } else { k };
+            sc.push((if i == 0 && rng.chance(1, 2) { 'c' } else { 'm' }, k.0, k.1));
+        }
+        scripts.push(sc);
+    }
+    for sc in &scripts {
+        let mut ops = vec![];
+        let mut items = vec![];
+        for (j, (op, class, ign)) in sc.iter().enumerate() {
+            let path = dir.join(format!("{}_{}{}.rs", if *ign { "i" } else { "n" }, class, (j + sc.len()) % variants));
+            let exists = path.exists();
+            if *op == 'c' {
+                items.push(format!("c{}{}", class, *ign as u8));
+                ops.push(pe::Op::ParseCrate(path));
+            } else {
+                items.push(format!("m{}{}{}", class, *ign as u8, exists as u8));
+                ops.push(pe::Op::ParseModule(path));
+            }
+        }
+        match pe::run(toml, &dir.join("rustfmt.toml"), true, &[], &ops) {
+            Ok(obs) => {
+                let nontrivial = obs.iter().any(|x| x.result != "Ok");
+                o.push("corr", "perr.run", format!("perr.run b {}", items.join(",")), enc_obs(&obs, 'b'), "real files through Parser::parse_crate / parse_file_as_module in one session".into(), nontrivial);
+            }
+            Err(e) => o.direct_failures.push(json!({"sig": "c05:perr-hook-failed", "what": e})),
+        }
+        o.count(&format!("perr-files:len:{}", if sc.len() <= 2 { sc.len().to_string() } else { ">2".into() }));
+    }
+}
+
 /// Formats every file of every case alone (in-process, in the worker pool) under its root's options;
 /// files meant to be already formatted are replaced by that text and formatted once more.
 pub fn fill_expected(cases: &mut [Case], o: &mut Outcome) {
@@ -992,7 +1491,7 @@ pub fn fill_expected(cases: &mut [Case], o: &mut Outcome) {
             for (ri, r) in case.roots.iter().enumerate() {
                 if let Root::Crate(c) = r {
                     for (ni, n) in c.nodes.iter().enumerate() {
-                        if n.fault.is_some() || n.skip_attr {
+                        if (n.fault.is_some() && !matches!(n.fault, Some(FileFault::Warning(_)))) || n.skip_attr || n.absent {
                             continue;
                         }
                         if pass == 1 && !n.want_formatted {
@@ -1017,6 +1516,7 @@ pub fn fill_expected(cases: &mut [Case], o: &mut Outcome) {
                 } else {
                     o.count("single-file-format:not-clean");
                     c.nodes[*ni].expected = None;
+                    c.nodes[*ni].expected_unknown = true;
                 }
             }
         }
@@ -1052,7 +1552,9 @@ fn probe_case(rng: &mut Rng, n: usize, f: impl FnOnce(&mut Crate), mode: Mode, o
 }
 
 pub fn run(tier: &str, seed: u64, out: &Path) -> i32 {
-    pool::install_panic_hook();
+    if std::env::var_os("VERIF_LOUD_PANICS").is_none() {
+        pool::install_panic_hook();
+    }
     let mut o = Outcome::new("C05", tier, seed);
     let thorough = tier == "thorough";
     let mut rng = Rng::new(seed ^ 0xc05);
@@ -1094,6 +1596,55 @@ pub fn run(tier: &str, seed: u64, out: &Path) -> i32 {
             for mode in MODES {
                 let n = cases.len();
                 cases.push(build_healthy_case(&mut rng, n, variant, mode));
+            }
+        }
+    }
+    // ---- `ignore` lists x fault classes (recoverable / unrecoverable / unclosed / lexer-fatal / warning) x order
+    let classes = ["ok", "r", "s", "w", "u", "x", "f"];
+    for rep in 0..reps {
+        let mut idx = rep;
+        for ca in classes {
+            for cb in classes {
+                if ca == "ok" && cb == "ok" {
+                    continue;
+                }
+                for a_first in [true, false] {
+                    idx += 1;
+                    let n = cases.len();
+                    let mode = [Mode::Files, Mode::Backup, Mode::Check][idx % 3];
+                    cases.push(build_ignore_case(&mut rng, n, ca, cb, a_first, SPELLINGS[(idx / 3) % 4], mode, (idx / 2 + rep) % 5));
+                }
+            }
+        }
+        // the shapes on which `can_reset` decides: an ignored file that raises the flag, then a file that is
+        // not ignored with an error of its own — every spelling x every pair of positions, in the writing mode
+        for sp in SPELLINGS {
+            for shape in 0..5 {
+                for (ca, cb) in [("r", "r"), ("w", "r"), ("r", "s")] {
+                    if ca == "w" && (shape + rep) % 2 == 1 {
+                        continue;
+                    }
+                    let n = cases.len();
+                    cases.push(build_ignore_case(&mut rng, n, ca, cb, true, sp, if shape % 2 == 0 { Mode::Files } else { Mode::Backup }, shape));
+                }
+            }
+        }
+    }
+    // ---- modules declared with nested paths (`#[cfg_attr(pred, path = "..")] mod m;`): fault class x where
+    //      (a candidate / the default file) x default file present or not x last module of the crate or not
+    for rep in 0..reps {
+        let mut idx = rep;
+        for class in ["ok", "r", "s", "u", "x", "f"] {
+            for (n_alts, with_default, target) in [(1usize, true, usize::MAX), (1, true, 0), (2, true, 1), (2, false, 0), (2, false, 1), (1, false, 0), (2, true, usize::MAX)] {
+                for last in [true, false] {
+                    idx += 1;
+                    if class == "ok" && idx % 2 == 0 {
+                        continue;
+                    }
+                    let n = cases.len();
+                    let mode = [Mode::Files, Mode::Backup, Mode::Check, Mode::Files][idx % 4];
+                    cases.push(build_cfgattr_case(&mut rng, n, class, n_alts, with_default, target, last, mode));
+                }
             }
         }
     }
@@ -1187,6 +1738,15 @@ pub fn run(tier: &str, seed: u64, out: &Path) -> i32 {
     for r in res2.into_iter().flatten() {
         let nt = r.1.contains(',');
         o.push("corr", "proj.resolve", r.0, r.1, r.2, nt);
+    }
+
+    // ---- the error bookkeeping in process: model vs the real DiagCtxt / emitter / parser decisions
+    {
+        let pbase = work.join("perr");
+        std::fs::create_dir_all(&pbase).unwrap();
+        let mut prng = rng.fork();
+        perr_synthetic(&mut o, &mut prng, &pbase, thorough);
+        perr_files(&mut o, &mut prng, &pbase, thorough);
     }
 
     // ---- the generated lists pass the static checks the theorems start from
@@ -1315,6 +1875,103 @@ pub fn run(tier: &str, seed: u64, out: &Path) -> i32 {
             }
         }
         o.probes.push(json!({"id": "D3", "fails": d3 > 0, "what": format!("a root file with an unclosed delimiter that is on its own `ignore` list (skip_children off): exit status 1 but nothing at all on stderr ({} of {} runs) — the silent emitter for ignored files swallows the only diagnostic", d3, pcs.len()), "detail": detail}));
+    }
+    // D4 (repaired): an ignored module with a recoverable error, then a module that is NOT ignored with an error
+    // the rustc parser stashes (`static X = 1;`): before the repair the run reset the count, wrote
+    // `static X: _ = 1;` and exited 0 without a diagnostic
+    {
+        let mut pcs = vec![];
+        for k in 0..STASHED.len() {
+            for (mi, mode) in [Mode::Files, Mode::Backup].iter().enumerate() {
+                let n = 140_000 + pcs.len();
+                pcs.push(probe_case(&mut prng, n, |c| {
+                    let order = c.visit_order();
+                    let (a, b) = (order[0], order[1]);
+                    c.nodes[a].fault = Some(FileFault::Recoverable(k * 3 + mi));
+                    c.nodes[b].fault = Some(FileFault::Stashed(k));
+                    c.ignored.push(a);
+                    c.cfg = vec![];
+                    c.toml = Some(format!("ignore = [\"{}\"]\n", c.nodes[a].rel.display()));
+                }, *mode, k % 2));
+            }
+        }
+        fill_expected(&mut pcs, &mut o);
+        let evs: Vec<Eval> = par_map(&pcs, |c| evaluate(c, &work, false));
+        let mut bad = 0;
+        let mut detail = vec![];
+        for (case, ev) in pcs.iter().zip(evs.iter()) {
+            let fails = oracles(case, ev);
+            if !fails.is_empty() {
+                bad += 1;
+                if detail.len() < 3 {
+                    detail.push(json!({"cmdline": ev.cmdline, "exit": ev.exit, "stderr": ev.stderr.chars().take(300).collect::<String>(), "oracles": fails.iter().map(|f| format!("{} {}", f.0, f.1)).collect::<Vec<_>>()}));
+                }
+            }
+        }
+        o.probes.push(json!({"id": "D4", "fails": bad > 0, "what": format!("`ignore = [\"a.rs\"]`, a.rs with a recoverable syntax error, then b.rs (not ignored) with an error the rustc parser stashes (`static X = 1;`, `const X = 1;`, `x.f::<u8>`): expected exit 1, a diagnostic and no file touched; {} of {} runs violate that", bad, pcs.len()), "detail": detail}));
+    }
+    // D5 (repaired): `#[cfg_attr(a, path = "good.rs")] #[cfg_attr(b, path = "bad.rs")] mod m;` as the last module,
+    // no default file, bad.rs with a syntax error: before the repair the candidate was skipped over and the crate
+    // written with exit status 0
+    {
+        let mut pcs = vec![];
+        for (k, class) in ["r", "u", "x", "f", "s"].iter().enumerate() {
+            for with_default in [false, true] {
+                let n = 150_000 + pcs.len();
+                let mut case = build_cfgattr_case(&mut prng, n, class, 2, with_default, 1, true, if k % 2 == 0 { Mode::Files } else { Mode::Backup });
+                case.kind = "probe".into();
+                pcs.push(case);
+            }
+        }
+        fill_expected(&mut pcs, &mut o);
+        let evs: Vec<Eval> = par_map(&pcs, |c| evaluate(c, &work, false));
+        let mut bad = 0;
+        let mut detail = vec![];
+        for (case, ev) in pcs.iter().zip(evs.iter()) {
+            let fails = oracles(case, ev);
+            if !fails.is_empty() {
+                bad += 1;
+                if detail.len() < 3 {
+                    detail.push(json!({"cmdline": ev.cmdline, "exit": ev.exit, "stderr": ev.stderr.chars().take(300).collect::<String>(), "oracles": fails.iter().map(|f| format!("{} {}", f.0, f.1)).collect::<Vec<_>>()}));
+                }
+            }
+        }
+        o.probes.push(json!({"id": "D5", "fails": bad > 0, "what": format!("a nested-path candidate (`#[cfg_attr(pred, path = \"bad.rs\")] mod m;`) that does not parse, declared last: expected exit 1, a diagnostic and no file touched; {} of {} runs violate that", bad, pcs.len()), "detail": detail}));
+    }
+    // W1 (informational; predicted by the model, RF.Props.C05 last example): a mere parser WARNING in a file that
+    // is not ignored raises has_non_ignorable_parser_errors, after which the recoverable error of an ignored file
+    // is no longer reset: the run fails (exit 1, nothing written) although no file outside the ignore list has an
+    // error.  That is `ignore` not working, not damage: the probe fails only if a file is touched.
+    {
+        let mut pcs = vec![];
+        for k in 0..WARNING.len() {
+            let n = 160_000 + pcs.len();
+            let mut case = probe_case(&mut prng, n, |c| {
+                let order = c.visit_order();
+                let (a, b) = (order[0], order[1]);
+                c.nodes[a].fault = Some(FileFault::Warning(k));
+                c.nodes[b].fault = Some(FileFault::Recoverable(k));
+                c.ignored.push(b);
+                c.cfg = vec![];
+                c.toml = Some(format!("ignore = [\"{}\"]\n", c.nodes[b].rel.display()));
+            }, Mode::Files, k % 2);
+            case.faulty = None;
+            pcs.push(case);
+        }
+        fill_expected(&mut pcs, &mut o);
+        let evs: Vec<Eval> = par_map(&pcs, |c| evaluate(c, &work, false));
+        let mut wrote = 0;
+        let mut exits = vec![];
+        for (case, ev) in pcs.iter().zip(evs.iter()) {
+            exits.push(ev.exit);
+            let pre = "f/";
+            let changed = ev.after.iter().any(|(k, v)| k.starts_with(pre) && ev.before.get(k) != Some(v));
+            if ev.exit != Some(0) && changed {
+                wrote += 1;
+            }
+            let _ = case;
+        }
+        o.probes.push(json!({"id": "W1", "fails": wrote > 0, "what": "informational: a parser warning (`multiple lines skipped by escaped newline`, `suffixes on a tuple index are invalid`) in a module that is not ignored, followed by an ignored module with a recoverable syntax error: the run fails with `cannot parse <the ignored file>` (the warning raised has_non_ignorable_parser_errors, so can_reset is never set); nothing is written, so C05 holds — the probe fails only if a file of the failing root is touched", "detail": {"exits": exits}}));
     }
     // OPTOUT: the root is excluded from processing by configuration (ignored under skip_children, or
     // disable_all_formatting): never parsed, exit 0, nothing printed.  Not a violation of C05 as written
